@@ -8,6 +8,7 @@ import (
 	"go/types"
 	"os"
 	"runtime"
+	"strconv"
 	"strings"
 )
 
@@ -118,6 +119,15 @@ func init() {
 		}
 		s := symInt{X.fresh(str(args[0]), 64), types.Int}
 		X.assert("(bvult " + s.t + " " + bvc(uint64(n), 64) + ")")
+		// debugging aid: SYMGO_PIN="case=8,form=2" restricts named choices
+		// (never set by registered commands)
+		for _, kv := range strings.Split(os.Getenv("SYMGO_PIN"), ",") {
+			if k, v, ok := strings.Cut(kv, "="); ok && k == str(args[0]) {
+				if pv, err := strconv.ParseUint(v, 10, 64); err == nil {
+					X.assert("(= " + s.t + " " + bvc(pv, 64) + ")")
+				}
+			}
+		}
 		return int(X.concretise(s))
 	})
 	E("Concrete", func(fr *frame, args []value) value {
